@@ -54,7 +54,7 @@ def handle (line : String) : Out :=
     | none => badOp
     | some sc =>
       match parseTrace sc tr with
-      | none => { model := "unparsable-trace", spec := "a-trace-without-panic-or-timeout" }
+      | none => { model := "unparsable-trace", spec := "a-well-formed-trace:no-panic,no-timeout,no-negative-PendingCount" }
       | some toks =>
         { model := modelColumn sc.cfg tr toks,
           spec := match monitor toks with | none => "*" | some v => "C43-violated:" ++ v }
